@@ -55,6 +55,11 @@ def Cfg.useg (c : Cfg) : Bool :=
     | g :: _ => posG g
     | [] => false
 
+/-- current grouping byte (0 when the string is empty) -/
+def headG : List Nat → Nat
+  | g :: _ => g
+  | [] => 0
+
 /-- next position in the grouping string: the last element repeats -/
 def nextG : List Nat → List Nat
   | _ :: h :: t => h :: t
@@ -64,7 +69,7 @@ def nextG : List Nat → List Nat
 def splitRev : List Nat → Nat → Text → List Text
   | _, 0, dr => [dr]
   | gs, fuel + 1, dr =>
-    let g := gs.headD 0
+    let g := headG gs
     if g < dr.length ∧ posG g = true then dr.take g :: splitRev (nextG gs) fuel (dr.drop g)
     else [dr]
 
@@ -190,8 +195,8 @@ def scan (useg : Bool) (sep : Char) (base : Nat) : Nat → Bool → Nat → List
 /-- `std::__verify_grouping` on the reversed list of found group sizes -/
 def verifyRev : List Nat → List Nat → Bool
   | _, [] => true
-  | gs, [f0] => let g := gs.headD 0; if posG g then decide (f0 ≤ g) else true
-  | gs, f :: r => decide (f = gs.headD 0) && verifyRev (nextG gs) r
+  | gs, [f0] => let g := headG gs; if posG g then decide (f0 ≤ g) else true
+  | gs, f :: r => decide (f = headG gs) && verifyRev (nextG gs) r
 
 /-- outcome of one `istream >> uint64` -/
 structure Got where
@@ -201,28 +206,33 @@ structure Got where
   rest : Text
 deriving Repr
 
-/-- `num_get::_M_extract_int<unsigned long>` -/
-def getInt (c : Cfg) (t : Text) : Got :=
-  let useg := c.useg
-  -- sign
-  let (neg, t1) :=
-    match t with
-    | ch :: r =>
-      if (ch = '-' ∨ ch = '+') ∧ ¬ (useg ∧ ch = c.sep) ∧ ch ≠ '.' then (decide (ch = '-'), r)
-      else (false, t)
-    | [] => (false, t)
-  let base0 := if c.base = 8 then 8 else if c.base = 16 then 16 else 10
-  let l := lead useg c.sep (c.base = 0) base0 false 0 t1
-  let s := scan useg c.sep l.base 0 false l.sepPos [] l.rest
-  let found := if s.found ≠ [] then s.found ++ [s.sepPos] else []
-  let gfail := found ≠ [] ∧ verifyRev c.gs found.reverse = false
-  let eof := s.rest = []
-  if (s.sepPos = 0 ∧ l.foundZero = false ∧ s.found = []) ∨ s.testfail then
-    ⟨some 0, true, eof, s.rest⟩
+/-- the sign test of `_M_extract_int`: (negative, text after the sign) -/
+def signOf (useg : Bool) (sep : Char) : Text → Bool × Text
+  | ch :: r =>
+    if (ch = '-' ∨ ch = '+') ∧ ¬ (useg = true ∧ ch = sep) ∧ ch ≠ '.' then (decide (ch = '-'), r)
+    else (false, ch :: r)
+  | [] => (false, [])
+
+/-- the base `_M_extract_int` starts with -/
+def base0 (c : Cfg) : Nat := if c.base = 8 then 8 else if c.base = 16 then 16 else 10
+
+/-- the end of `_M_extract_int`: grouping check, "no digits", overflow, the value -/
+def verdict (gs : List Nat) (neg fz : Bool) (s : Scan) : Got :=
+  let found := if s.found = [] then [] else s.found ++ [s.sepPos]
+  let gfail := !(found == []) && !(verifyRev gs found.reverse)
+  let eof := decide (s.rest = [])
+  if (s.sepPos = 0 ∧ fz = false ∧ s.found = []) ∨ s.testfail = true then ⟨some 0, true, eof, s.rest⟩
   else if s.ovf then ⟨some 0xFFFFFFFFFFFFFFFF, true, eof, s.rest⟩
   else
     let v := s.acc.toUInt64
     ⟨some (if neg then 0 - v else v), gfail, eof, s.rest⟩
+
+/-- `num_get::_M_extract_int<unsigned long>` -/
+def getInt (c : Cfg) (t : Text) : Got :=
+  let sg := signOf c.useg c.sep t
+  let l := lead c.useg c.sep (decide (c.base = 0)) (base0 c) false 0 sg.2
+  let s := scan c.useg c.sep l.base 0 false l.sepPos [] l.rest
+  verdict c.gs sg.1 l.foundZero s
 
 /-- the sentry, then `num_get`; `bad` = the stream was not good() (eofbit or failbit already set) -/
 def getWord (c : Cfg) (t : Text) (bad : Bool) : Got :=
